@@ -152,6 +152,22 @@ Fixpoint ports_nonneg (fuel : nat) (r : string -> Q) (t : ctree expr) : bool :=
       && forallb (ports_nonneg f r) (ct_children t)
   end.
 
+(* C16 is about the children in the order the SOURCE lists them (an execution order): the compiled tree is read in
+   that order, whatever order the compiler kept them in *)
+Fixpoint reorder_like (fuel : nat) (r : routine) (t : ctree expr) : ctree expr :=
+  match fuel with
+  | O => t
+  | S f =>
+      match t with
+      | CT n ty ins sp ports res conns rep cs kids =>
+          let kids' := flat_map (fun c => match find (fun k => String.eqb (ct_name k) (rname c)) kids with
+                                          | Some k => [reorder_like f c k]
+                                          | None => []
+                                          end) (rchildren r) in
+          CT n ty ins sp ports res conns rep cs (if Nat.eqb (List.length kids') (List.length kids) then kids' else kids)
+      end
+  end.
+
 Definition check_highwater (impl : impl_result) (pts : list (list (string * Q))) : list nat * list nat :=
   match impl with
   | IOk t =>
@@ -159,4 +175,10 @@ Definition check_highwater (impl : impl_result) (pts : list (list (string * Q)))
                               then check_hw_tree (S (ct_height t)) (envQ p (dfltQ 0)) t else ([2%nat], [2%nat])) pts in
       (flat_map fst rs, flat_map snd rs)
   | IErr _ => ([1%nat], [])
+  end.
+
+Definition check_highwater_src (r : routine) (impl : impl_result) (pts : list (list (string * Q))) : list nat * list nat :=
+  match impl with
+  | IOk t => check_highwater (IOk (reorder_like (S (ct_height t)) r t)) pts
+  | IErr _ => check_highwater impl pts
   end.
